@@ -25,9 +25,46 @@ func init() { runners["C18"] = runC18 }
 
 // one operation of a goroutine's private sequence; everything it touches is created from its own rng,
 // except the library's registries, the shared random source and (shared==true) a read-only input buffer
+// read-only inputs shared by all goroutines of a run: a protected datagram (every goroutine opens it with its OWN SA
+// object holding the same keys), a raw AES-CBC ciphertext (own cipher object), an EAP packet
+type sharedFixtures struct {
+	sk     []byte
+	skCase skCase
+	ct     []byte
+	ctKey  []byte
+	ctEncr string
+	eapPkt []byte
+}
+
+var fx *sharedFixtures
+
 func concOp(r *Rng, shared []byte) string {
 	return run(func() string {
-		switch r.Intn(12) {
+		switch r.Intn(15) {
+		case 12: // unprotect the shared protected datagram with an own SA object
+			if fx == nil || fx.sk == nil {
+				return "shared-unprotect:none"
+			}
+			k := fx.skCase
+			sa, err := saFromKeys(k.s, k.ks.d, k.ks.ai, k.ks.ar, k.ks.ei, k.ks.er, k.ks.pi, k.ks.pr)
+			if err != nil {
+				return "shared-unprotect:keyerr"
+			}
+			m, err := ike.DecodeDecrypt(fx.sk, nil, sa, roleOf(other(k.role)))
+			if err != nil {
+				return "shared-unprotect:err"
+			}
+			return "shared-unprotect:" + normMsgNoNext(sxMsg(m))
+		case 13: // decrypt the shared ciphertext with an own cipher object
+			if fx == nil || fx.ct == nil {
+				return "shared-decrypt:none"
+			}
+			return "shared-decrypt:" + implAesDec(fx.ctEncr, fx.ctKey, fx.ct)
+		case 14: // decode the shared EAP packet
+			if fx == nil || fx.eapPkt == nil {
+				return "shared-eap:none"
+			}
+			return "shared-eap:" + implEapUnmarshal(fx.eapPkt)
 		case 0: // encode
 			m := genMessage(r)
 			return "encode:" + implEncode(m)
@@ -149,6 +186,29 @@ func runC18(c *Ctx) error {
 	}
 	shared := sharedMsg[0].B0()
 	sharedCopy := append([]byte(nil), shared...)
+	// the other shared read-only inputs
+	fx = &sharedFixtures{}
+	for t := 0; t < 50 && fx.sk == nil; t++ {
+		k := genSkCase(rng, rng.Intn(9))
+		sa, err := saFromKeys(k.s, k.ks.d, k.ks.ai, k.ks.ar, k.ks.ei, k.ks.er, k.ks.pi, k.ks.pr)
+		if err != nil {
+			continue
+		}
+		if w, err := ike.EncodeEncrypt(goMsg(k.m), sa, roleOf(k.role)); err == nil {
+			fx.sk, fx.skCase = w, k
+		}
+	}
+	fx.ctEncr = encrIDs[rng.Intn(3)]
+	fx.ctKey = rng.Bytes(encrKeyLen[fx.ctEncr])
+	if cr, err := encr.StrToType(encrNames[fx.ctEncr]).NewCrypto(fx.ctKey); err == nil {
+		fx.ct, _ = cr.Encrypt(rng.Bytes(rng.Range(1, 200)))
+	}
+	for t := 0; t < 50 && fx.eapPkt == nil; t++ {
+		if b := okBody(implEapMarshal(genEapAny(rng))); b != nil {
+			fx.eapPkt = b[0].B0()
+		}
+	}
+	fxCopy := [][]byte{append([]byte(nil), fx.sk...), append([]byte(nil), fx.ct...), append([]byte(nil), fx.eapPkt...)}
 	oldProcs := runtime.GOMAXPROCS(0)
 	defer runtime.GOMAXPROCS(oldProcs)
 	rounds := c.N(6, 40)
@@ -207,6 +267,13 @@ func runC18(c *Ctx) error {
 		r.Hist[fmt.Sprintf("round:goroutines=%d,gomaxprocs=%d", n, procs)]++
 		if !bytes.Equal(shared, sharedCopy) {
 			r.Add(Finding{Kind: "instance", What: "a decoder wrote into its shared read-only input buffer", Case: "(shared-buffer)", Expected: hx(sharedCopy), Observed: hx(shared)})
+		}
+		for i, cur := range [][]byte{fx.sk, fx.ct, fx.eapPkt} {
+			if !bytes.Equal(cur, fxCopy[i]) {
+				what := []string{"DecodeDecrypt", "IKECrypto.Decrypt", "EAP.Unmarshal"}[i]
+				r.Add(Finding{Kind: "instance", What: what + " wrote into its shared read-only input buffer", Case: fmt.Sprintf("(shared-input %d %s)", i, hx(fxCopy[i])), Expected: hx(fxCopy[i]), Observed: hx(cur)})
+				copy(cur, fxCopy[i])
+			}
 		}
 	}
 	r.Sample(fmt.Sprintf("(concurrent rounds=%d steps=%d shared-input=%s)", rounds, steps, hx(shared)))
